@@ -2,7 +2,7 @@
 //@ props C05 C01
 //@ kind W
 //@ def all NB=2 TBL_PART=1 TBL_ORACLE=SPEC_CP1252
-//@ cbmc all --unwind 360 --unwindset XML256TableTranscoder_xlatOneTo.0:11 --unwinding-assertions
+//@ cbmc all --unwind 4 --unwindset tbl_check_sorted.0:353,tbl_check_bytes.0:257,spec_byte_for.0:257,spec_bestfit.0:353,XML256TableTranscoder_xlatOneTo.0:11 --unwinding-assertions
 //@ entry h_tbl256_w
 //@ note W: XML256TableTranscoder instantiated with the REAL tables of XMLWin1252Transcoder (windows-1252); table facts are concrete and complete (all 256 bytes, all to-table entries); interface checks over every byte / unit string of length <= NB, both UnRepOpts; canTranscodeTo over every 32-bit argument; loops fully unwound, unwinding assertions on
 //@ note oracle: python3 codec cp1252 (Unicode.org MAPPINGS/VENDORS/MICSFT/WINDOWS/CP1252.TXT) frozen in spec/codepages.h; the five bytes it leaves undefined (81 8D 8F 90 9D) must decode to the C1 control of the same value (WHATWG Encoding index windows-1252)
